@@ -278,6 +278,8 @@ func checkC10(c *Ctx, r *Report) {
 
 	// ---------------- C10.d linking in both directions
 	checkEveryDeclaredParamKept(c, r, "C10.d")
+	// what validation accepts as a bindable primitive is what the routers can convert (shared with C05.f, C12.f)
+	checkConversionArms(c, r, "C10.b")
 	checkC10Linking(c, r)
 
 	// ---------------- C10.e severities
